@@ -257,7 +257,10 @@ HELPERS = r"""
     // register `break` jumps with them: operands inside ITS code), and every patch of a jump operand that lies
     // before its code
     spec fn frame_post(pre: &Compiler, post: &Compiler, start: int) -> bool {
-        &&& post.g@.spans == pre.g@.spans && post.settings == pre.settings
+        post.g@.spans == pre.g@.spans && Self::code_frame_post(pre, post, start)
+    }
+    spec fn code_frame_post(pre: &Compiler, post: &Compiler, start: int) -> bool {
+        &&& post.settings == pre.settings
         // (`break` / `continue` only ever touch the innermost loop: Frame::push_loop_jump_placeholder uses loop_stack.last_mut())
         &&& post.g@.loops.len() == pre.g@.loops.len()
         &&& (pre.g@.loops.len() > 0 ==> post.g@.loops.drop_last() == pre.g@.loops.drop_last() && post.g@.loops.last().start == pre.g@.loops.last().start
@@ -333,6 +336,19 @@ HELPERS = r"""
 
     #[verifier::external_body]
     fn make_error(&self, e: ErrorKind) -> Error { unimplemented!() }
+    // `self.frame_mut().assign_local_register(id)`: a LOCAL's register (not the temporary stack); emits nothing
+    #[verifier::external_body]
+    fn assign_local_register(&mut self, local: ConstantIndex) -> (r: Result<u8>) ensures *final(self) == *old(self) { unimplemented!() }
+    // ASSUMED contract of try_unpack_map (a map pattern as catch argument): it appends code, the jumps taken on a mismatch
+    // are handed to the caller (operands inside the code it appended), the rest of the state is as for any compile_* function
+    #[verifier::external_body]
+    fn try_unpack_map(&mut self, map_register: u8, entries: &AstVec<AstIndex>, type_hint: &Option<AstIndex>, jumps: &mut Vec<usize>, ctx: CompileNodeContext<'_>) -> (r: Result<()>)
+        requires old(self).g@.spans.len() > 0,
+        ensures r is Ok ==> prefix(old(self).g@.trace, final(self).g@.trace) && final(self).len() >= old(self).len() && final(self).g@.regs == old(self).g@.regs
+            && Self::frame_post(old(self), final(self), old(self).len())
+            && prefix(old(jumps)@, final(jumps)@)
+            && (forall|q: int| old(jumps)@.len() <= q < final(jumps)@.len() ==> old(self).len() <= (#[trigger] final(jumps)@[q]) && final(jumps)@[q] + 2 <= final(self).len()),
+    { unimplemented!() }
     // what compile_comparison_op emits for `lhs0 op0 rs[0]` where rs unrolls the chain (cmp_chain), c: the comparison register
     spec fn cmp_post(pre: &Compiler, post: &Compiler, ast: &Ast, op0: AstBinaryOp, lhs0: AstIndex, rs: Seq<AstIndex>, c: u8, out: CompileNodeOutput) -> bool {
         let t = post.g@.trace; let n = pre.g@.trace.len() as int; let links = rs.len() - 1; let q = n + 1 + 4 * links;
@@ -435,7 +451,7 @@ UNIT = Unit(
             &&& t.len() == n + 3 && prefix(old(self).g@.trace, t)
             &&& t[n].is_spanned_op(if allow_null { Op::CheckOptionalType } else { Op::CheckType }, seq![value_register], Some(ctx.ast.at(type_hint)))
             &&& t[n + 1].is_var(type_index.0)
-            &&& (r matches Ok(hole) && t[n + 2] == (Ev::Hole { at: hole as int }))
+            &&& (r matches Ok(hole) && t[n + 2] == (Ev::Hole { at: hole as int }) && hole >= old(self).len() && hole + 2 == final(self).len())
         }),                                                                                                                              // @check_always_emitted_with_its_mismatch_jump
         !(ctx.ast.at(type_hint).node is Type) ==> r is Err,                                                                              // @not_a_type_node_is_an_error
 """),
@@ -800,6 +816,82 @@ let ghost mut rs: Seq<AstIndex> = seq![rhs0]; let ghost mut operands: Seq<AstInd
         r matches Ok(out) ==> final(self).g@.regs == old(self).g@.regs + (if out.is_temporary { 1int } else { 0 }),                       // @temporaries_released
         r is Ok ==> Self::frame_post(old(self), final(self), old(self).len()),                                                           // @earlier_code_and_enclosing_loops_untouched
         r matches Ok(out) ==> (ctx.result_register matches ResultRegister::Fixed(x) ==> out.register == Some(x) && !out.is_temporary),
+        r matches Ok(out) ==> (ctx.result_register is None ==> out.register is None),                                                     // @result_request_is_honoured
+"""),
+        # ---- C04: try / catch / finally
+        Fn(F, "impl Compiler :: fn compile_try_expression", props=("C04", "C01", "C06"), attrs=("verifier::rlimit(80)", "verifier::spinoff_prover"),
+           subst=[ERR, (r"self\.error\(ErrorKind::\w+\)", "self.error_any()", None, "re"),
+                  # SmallVec<[usize; 4]> treated as a Vec
+                  ("SmallVec::<[usize; 4]>::new()", "Vec::<usize>::new()", None),
+                  # rule R16: `for (i, x) in v.iter().enumerate()` written with an explicit counter (std Enumerate: i counts from 0)
+                  ("for (i, catch_block) in catch_blocks.iter().enumerate() {", "let mut i__: usize = 0;\n        for catch_block in it: catch_blocks.iter() {\n            assert(it.index@ < catch_blocks@.len());\n            let i = i__; i__ = i__ + 1;", 1),
+                  # a Vec consumed by value, element by element: iterated by reference (usize is Copy)
+                  ("for placeholder in type_check_jump_placeholders {\n                self.update_offset_placeholder(placeholder)?;", "for placeholder in it3: type_check_jump_placeholders.iter() {\n                self.update_offset_placeholder(*placeholder)?;", 1),
+                  ("for placeholder in finally_jump_placeholders {\n            self.update_offset_placeholder(placeholder)?;", "for placeholder in it2: finally_jump_placeholders.iter() {\n            self.update_offset_placeholder(*placeholder)?;", 1)],
+           before=[("let mut i__: usize = 0;", "let ghost n = old(self).g@.trace.len() as int; let ghost t_head = self.g@.trace; let ghost r0 = self.g@.regs; proof { assert(catch_blocks@.len() == catch_blocks.len()); }"),
+                   ("let mut type_check_jump_placeholders = Vec::<usize>::new();", "let ghost s_it = *self;"),
+                   ("for placeholder in it3: type_check_jump_placeholders.iter() {", "let ghost t3 = self.g@.trace; let ghost len3 = self.len(); let ghost sp3 = self.g@.spans;"),
+                   ("self.pop_span(); // catch arg", "assert(self.g@.spans.drop_last() =~= old(self).g@.spans);"),
+                   ("self.pop_span(); // catch block", "assert(self.g@.spans.drop_last() =~= old(self).g@.spans);"),
+                   ("for placeholder in it2: finally_jump_placeholders.iter() {", "let ghost t_end = self.g@.trace; let ghost len_end = self.len(); proof { assert(prefix(t_head, t_end)); }"),
+                   ("if let Some(finally_block) = finally_block {", "proof { assert(finally_jump_placeholders@[0] as int == t_head[n + 5].pos()); assert(try_expression.finally_block == *finally_block && try_expression.try_block == *try_block); }")],
+           loops={1: r"""
+            invariant
+                i__ == it.index@, catch_blocks@.len() <= usize::MAX, !(try_result_register is Any),
+                self.g@.spans == old(self).g@.spans, self.g@.spans.len() > 0, self.settings == old(self).settings, self.g@.regs == r0,
+                n == old(self).g@.trace.len(), t_head.len() == n + 7, prefix(t_head, self.g@.trace), self.len() >= old(self).len(),
+                Self::frame_post(old(self), self, old(self).len()),
+                // the jumps to the finally block: all inside the code emitted here; the first one is the try block's
+                finally_jump_placeholders@.len() >= 1, finally_jump_placeholders@[0] as int == t_head[n + 5].pos(),
+                forall|q: int| 0 <= q < finally_jump_placeholders@.len() ==> old(self).len() <= (#[trigger] finally_jump_placeholders@[q]) && finally_jump_placeholders@[q] + 2 <= self.len(),
+                self.g@.patched.contains_key(t_head[n + 1].pos()) && self.g@.patched[t_head[n + 1].pos()] == t_head[n + 6].pos(), old(self).len() <= t_head[n + 1].pos() < t_head[n + 5].pos(),
+                t_head[n + 1].pos() + 2 <= self.len(),
+                forall|q: int| 0 <= q < finally_jump_placeholders@.len() ==> t_head[n + 1].pos() + 2 <= #[trigger] finally_jump_placeholders@[q],
+""", 2: r"""
+            invariant
+                self.g@.trace == t3, self.len() == len3, self.g@.spans == sp3, self.settings == old(self).settings, self.g@.regs == r0,
+                Self::code_frame_post(old(self), self, old(self).len()), old(self).len() <= s_it.len(), t_head[n + 1].pos() + 2 <= s_it.len(),
+                forall|q: int| 0 <= q < type_check_jump_placeholders@.len() ==> s_it.len() <= (#[trigger] type_check_jump_placeholders@[q]) && type_check_jump_placeholders@[q] + 2 <= self.len(),
+                self.g@.patched.contains_key(t_head[n + 1].pos()) && self.g@.patched[t_head[n + 1].pos()] == t_head[n + 6].pos(),
+""", 3: r"""
+            invariant
+                self.g@.trace == t_end, self.len() == len_end, self.g@.spans == old(self).g@.spans, self.settings == old(self).settings, self.g@.regs == r0 - 1,
+                Self::frame_post(old(self), self, old(self).len()),
+                forall|q: int| 0 <= q < finally_jump_placeholders@.len() ==> old(self).len() <= (#[trigger] finally_jump_placeholders@[q]) && finally_jump_placeholders@[q] + 2 <= self.len(),
+                forall|q: int| 0 <= q < finally_jump_placeholders@.len() ==> t_head[n + 1].pos() + 2 <= #[trigger] finally_jump_placeholders@[q],
+                self.g@.patched.contains_key(t_head[n + 1].pos()) && self.g@.patched[t_head[n + 1].pos()] == t_head[n + 6].pos(),
+                forall|q: int| 0 <= q < it2.index@ ==> self.g@.patched.contains_key(#[trigger] finally_jump_placeholders@[q] as int) && self.g@.patched[finally_jump_placeholders@[q] as int] == self.len(),
+"""},
+           spec=r"""
+    requires old(self).g@.spans.len() > 0,
+    ensures
+        r is Ok ==> prefix(old(self).g@.trace, final(self).g@.trace) && final(self).g@.trace.len() >= old(self).g@.trace.len() + 7,
+        // C04: TryStart names the register that receives the thrown value and points at the start of the catch blocks;
+        // the try block's value is the expression's value only when there is no finally block; reaching the end of the
+        // try block clears the catch point (TryEnd) and jumps over the catch blocks; the catch section starts by
+        // clearing the catch point (an error in a catch block must not re-enter it)
+        r matches Ok(out) ==> ({
+            let t = final(self).g@.trace; let n = old(self).g@.trace.len() as int;
+            &&& (t[n] matches Ev::Op { op, args, .. } && op == Op::TryStart && args.len() == 1)
+            &&& t[n + 1] is Hole
+            &&& t[n + 2].is_node(try_expression.try_block, if try_expression.finally_block is None { fixed_or_none_spec(out.register) } else { ResultRegister::None })
+            &&& t[n + 3].is_op(Op::TryEnd, seq![0u8]) && t[n + 4].is_op(Op::Jump, Seq::empty()) && t[n + 5] is Hole
+            &&& t[n + 6].is_op(Op::TryEnd, seq![0u8])
+            &&& final(self).g@.patched.contains_key(t[n + 1].pos()) && final(self).g@.patched[t[n + 1].pos()] == t[n + 6].pos()
+        }),                                                                                                                               // @try_block_layout_and_catch_point
+        // the finally block comes last, runs on every path that reaches the end of the try block or of a catch block
+        // (the jump after the try block lands on it), and provides the expression's value
+        r matches Ok(out) ==> ({
+            let t = final(self).g@.trace; let n = old(self).g@.trace.len() as int;
+            match try_expression.finally_block {
+                Some(f) => t.last().is_node(f, fixed_or_none_spec(out.register)) && final(self).g@.patched.contains_key(t[n + 5].pos()) && final(self).g@.patched[t[n + 5].pos()] == t.last().pos(),
+                None => final(self).g@.patched.contains_key(t[n + 5].pos()) && final(self).g@.patched[t[n + 5].pos()] == final(self).len(),
+            } }),                                                                                                                         // @finally_block_last_reached_from_the_try_block_gives_the_value
+        // C01: the result-register protocol (the catch register is released; a temporary result is reported as one)
+        r matches Ok(out) ==> final(self).g@.regs == old(self).g@.regs + (if out.is_temporary { 1int } else { 0 }),                       // @temporaries_released
+        r is Ok ==> Self::frame_post(old(self), final(self), old(self).len()),                                                           // @earlier_code_and_enclosing_loops_untouched
+        r matches Ok(out) ==> (ctx.result_register matches ResultRegister::Fixed(x) ==> out.register == Some(x) && !out.is_temporary),
+        r matches Ok(out) ==> (ctx.result_register is Any ==> out.register is Some && out.is_temporary),
         r matches Ok(out) ==> (ctx.result_register is None ==> out.register is None),                                                     // @result_request_is_honoured
 """),
     ],
